@@ -94,18 +94,18 @@ theorem roadm_fibre_junction_amplified (c : SplitCfg α) (ch : Chain α) :
   · intro hs e he
     unfold addMissingLine at he
     rw [addInline_head, hs] at he
-    exact addBooster_head _ _ e he
+    exact addBooster_head _ _ _ e he
   · intro hd e he
     unfold addMissingLine at he
     rw [addInline_getLast, addBooster_getLast, hd] at he
-    exact addPreamp_getLast _ _ e he
+    exact addPreamp_getLast _ _ _ e he
 
 /-- the deliberate exceptions: nothing is inserted at a transceiver end, nor when the neighbour of the ROADM is not
 a fibre (Fused, user amplifier) -/
-theorem junction_exceptions (src dst : String) (l : List (Elem α)) :
-    addBooster src .trx l = l ∧ addPreamp dst .trx l = l ∧
-    (∀ e t, l = e :: t → e.isFiber = false → addBooster src .roadm l = l) ∧
-    (∀ e, l.getLast? = some e → e.isFiber = false → addPreamp dst .roadm l = l) := by
+theorem junction_exceptions (src dst : String) (m : Bool) (l : List (Elem α)) :
+    addBooster src .trx m l = l ∧ addPreamp dst .trx m l = l ∧
+    (∀ e t, l = e :: t → e.isFiber = false → addBooster src .roadm m l = l) ∧
+    (∀ e, l.getLast? = some e → e.isFiber = false → addPreamp dst .roadm m l = l) := by
   refine ⟨by simp [addBooster], by simp [addPreamp], ?_, ?_⟩
   · intro e t hl he
     subst hl
@@ -121,7 +121,7 @@ unchanged. -/
 theorem original_order_preserved (c : SplitCfg α) (ch : Chain α) :
     List.Sublist (splitLine c ch.line) (addMissingLine c ch) := by
   unfold addMissingLine
-  exact (addPreamp_sublist _ _ _).trans ((addBooster_sublist _ _ _).trans (addInline_sublist _))
+  exact (addPreamp_sublist _ _ _ _).trans ((addBooster_sublist _ _ _ _).trans (addInline_sublist _))
 
 theorem addMissing_endpoints (c : SplitCfg α) (ch : Chain α) :
     (addMissing c ch).src = ch.src ∧ (addMissing c ch).dst = ch.dst ∧
@@ -149,6 +149,83 @@ theorem splitLine_kinds (c : SplitCfg α) (l : List (Elem α)) :
 theorem connectors_defined (dIn dOut eol : α) (l : List (Elem α)) :
     ∀ e ∈ addConn dIn dOut eol l, ConnOK e :=
   addConn_connOK dIn dOut eol l
+
+end
+
+/-! ### Edfa or Multiband_amplifier: the kind of the inserted amplifiers -/
+
+section
+variable {α : Type} [Add α] [Sub α] [Mul α] [Div α] [Neg α] [NatCast α] [LT α] [LE α]
+  [DecidableLT α] [DecidableLE α] [Transc α]
+
+/-- "amplifier" in `no_adjacent_fibres`, `roadm_fibre_junction_amplified`, `original_order_preserved`,
+`addMissing_fixpoint` means Edfa OR Multiband_amplifier: both are the constructor `Elem.edfa` (flag `multi`), the
+inserted element has the same uid either way, and none of those statements depends on the flag. What the flag is:
+
+**a line without amplifiers between two ROADMs, the source ROADM visited first**: booster, in-line amplifiers and
+preamp are all Multiband_amplifiers iff the source ROADM has more than one design band — the booster decides from
+`roadm.design_bands`, the preamp follows the booster, every in-line amplifier follows the preamp downstream. -/
+theorem multiband_kinds_follow_design_bands (c : SplitCfg α) (ch : Chain α)
+    (hsk : ch.srcKind = .roadm) (hdk : ch.dstKind = .roadm) (hord : ch.dstFirst = false)
+    (hno : NoAmp (splitLine c ch.line))
+    (u : String) (p : FiberP α) (t : List (Elem α)) (hhead : splitLine c ch.line = .fiber u p :: t)
+    (v : String) (q : FiberP α) (hlast : (splitLine c ch.line).getLast? = some (.fiber v q)) :
+    ∀ e ∈ addMissingLine c ch, e.isEdfa = true → e.isMulti = decide (1 < ch.srcBands) := by
+  obtain ⟨hm, hs⟩ := hasMulti_noAmp _ hno
+  have hm' : hasMulti (Elem.fiber u p :: t) = false := by rw [← hhead]; exact hm
+  have hs' : hasSingle (Elem.fiber u p :: t) = false := by rw [← hhead]; exact hs
+  have hk : endAmpKinds ch.srcKind ch.dstKind ch.srcBands ch.dstFirst (splitLine c ch.line)
+      = (decide (1 < ch.srcBands), decide (1 < ch.srcBands)) := by
+    simp only [endAmpKinds, hord, hsk, hhead, boosterInserted, boosterRule, preampRule, hm', hs']
+    have hb : ∀ m, hasMulti (Elem.edfa "" (newAmp m) :: Elem.fiber u p :: t) = m := by
+      intro m
+      unfold hasMulti at hm' ⊢
+      rw [List.any_cons, hm']
+      simp [Elem.isMulti, newAmp]
+    simp [hb]
+  intro e he hamp
+  unfold addMissingLine at he
+  simp only [hk] at he
+  rw [hsk, hdk] at he
+  have hpre : addPreamp ch.dst .roadm (decide (1 < ch.srcBands)) (splitLine c ch.line)
+      = splitLine c ch.line ++ [.edfa (preampName ch.dst v) (newAmp (decide (1 < ch.srcBands)))] := by
+    simp [addPreamp, hlast]
+  rw [hpre] at he
+  have hboost : addBooster ch.src .roadm (decide (1 < ch.srcBands))
+      (splitLine c ch.line ++ [.edfa (preampName ch.dst v) (newAmp (decide (1 < ch.srcBands)))])
+      = .edfa (boosterName ch.src u) (newAmp (decide (1 < ch.srcBands))) ::
+        (splitLine c ch.line ++ [.edfa (preampName ch.dst v) (newAmp (decide (1 < ch.srcBands)))]) := by
+    rw [hhead]; simp [addBooster]
+  rw [hboost] at he
+  simp only [addInline, List.mem_cons] at he
+  rcases he with he | he
+  · subst he; simp [Elem.isMulti, newAmp]
+  · exact addInline_kinds _ hno _ _ e he hamp
+
+/-- **Current code, defect (multiband-type-decision):** the same line with the DESTINATION ROADM visited first — its
+preamp is decided before anything else is on the line and `add_roadm_preamp` does not look at design bands, so it is
+an Edfa; the booster then follows the preamp: an all-Edfa line leaves a ROADM with two design bands
+(`set_per_degree_design_band` rejects it). The kind depends on the order of the ROADMs in the document. -/
+theorem multiband_dst_first_fails_current (f g : FiberP ℝ) :
+    endAmpKinds .roadm .roadm 2 true [Elem.fiber "a" f, Elem.fiber "b" g] = (false, false) ∧
+    endAmpKinds .roadm .roadm 2 false [Elem.fiber "a" f, Elem.fiber "b" g] = (true, true) ∧
+    kindsRaise 2 (addInline (addBooster "R1" .roadm false (addPreamp "R0" .roadm false
+      [Elem.fiber "a" f, Elem.fiber "b" g]))) = true := by
+  refine ⟨?_, ?_, ?_⟩ <;>
+    simp [endAmpKinds, preampRule, boosterRule, preampInserted, boosterInserted, hasMulti, hasSingle, Elem.isMulti,
+      Elem.isSingle, newAmp, kindsRaise, addInline, addBooster, addPreamp]
+
+/-- **Current code, defect (multiband-type-decision):** a line that ends `… Fiber – Fused – ROADM` gets no preamp; with
+two design bands the booster is a Multiband_amplifier, but the in-line amplifier only looks downstream, finds no
+amplifier and becomes an Edfa: a mixed OMS, which `check_oms_single_type` rejects -/
+theorem multiband_fused_end_mixed_fails_current (f g : FiberP ℝ) :
+    let l : List (Elem ℝ) := [.fiber "a" f, .fiber "b" g, .fused "x" 1]
+    let k := endAmpKinds .roadm .roadm 2 false l
+    k = (true, true) ∧
+    hasMulti (addInline (addBooster "R0" .roadm k.1 (addPreamp "R1" .roadm k.2 l))) = true ∧
+    hasSingle (addInline (addBooster "R0" .roadm k.1 (addPreamp "R1" .roadm k.2 l))) = true := by
+  simp [endAmpKinds, preampRule, boosterRule, preampInserted, boosterInserted, hasMulti, hasSingle, Elem.isMulti,
+    Elem.isSingle, newAmp, addInline, addBooster, addPreamp]
 
 end
 
@@ -432,9 +509,10 @@ Full statement (not proved): if the input uids are unique and none of them has o
 designed network are unique. What is missing is the injectivity of the string formatting. -/
 theorem names_unique_partial {α : Type} [Add α] [Sub α] [Mul α] [Div α] [Neg α] [NatCast α] [LT α] [LE α]
     [DecidableLT α] [DecidableLE α] [Transc α] (c : SplitCfg α) (ch : Chain α) :
-    let mid := addBooster ch.src ch.srcKind (addPreamp ch.dst ch.dstKind (splitLine c ch.line))
+    let k := endAmpKinds ch.srcKind ch.dstKind ch.srcBands ch.dstFirst (splitLine c ch.line)
+    let mid := addBooster ch.src ch.srcKind k.1 (addPreamp ch.dst ch.dstKind k.2 (splitLine c ch.line))
     (mid.map Elem.uid ++ inlineNames mid).Nodup → ((addMissingLine c ch).map Elem.uid).Nodup := by
-  intro mid h
+  intro k mid h
   exact (addInline_uids mid).nodup_iff.mpr h
 
 /-- **Every amplifier ends up with a gain, an output VOA and — in power mode — a power offset and target**: the
